@@ -365,6 +365,24 @@ int main(void)
             if (b.iov_base) free(b.iov_base);
             continue;
         }
+        if (!strcmp(op, "vtcache") && n >= 2) {   /* vtcache <hash:hexvt,...>: create_cached_vtable called directly on a fresh builder */
+            char *p = toks[1];
+            new_builder(1); elog_len = 0; if (elog) elog[0] = 0;
+            while (p && *p) {
+                char *q = strchr(p, ','), *c; size_t len; flatbuffers_voffset_t *vt; flatcc_builder_vt_ref_t r; uint32_t hash;
+                if (q) *q = 0;
+                c = strchr(p, ':'); if (!c) { printf("bad"); break; }
+                *c = 0; hash = (uint32_t)strtoul(p, 0, 10);
+                len = h_hexlen(c + 1); vt = malloc(len + 2); h_unhex(c + 1, (uint8_t *)vt);
+                r = flatcc_builder_create_cached_vtable(B, vt, (flatbuffers_voffset_t)len, hash);
+                printf("%ld", (long)r);
+                free(vt);
+                if (!q) break;
+                putchar(','); p = q + 1;
+            }
+            putchar('\n');
+            continue;
+        }
         if (!have_B) new_builder(1);
         if (!strcmp(op, "opt") && n >= 3) {
             flatcc_builder_set_vtable_cache_limit(B, (size_t)atol(toks[1])); flatcc_builder_set_max_level(B, atoi(toks[2]));
